@@ -216,6 +216,8 @@ func stripPos(s string) string {
 
 func cloneProps(fkey string) []string {
 	switch {
+	case strings.HasPrefix(fkey, "ring.") && strings.Contains(fkey, "Sampler") || strings.HasPrefix(fkey, "utils/sampling"):
+		return []string{"C17", "C03"}
 	case strings.HasPrefix(fkey, "ring/ringqp") || strings.HasPrefix(fkey, "ring."):
 		return []string{"C01", "C02"}
 	case strings.HasPrefix(fkey, "utils/buffer") || strings.HasPrefix(fkey, "utils/structs"):
@@ -247,13 +249,15 @@ func cloneProps(fkey string) []string {
 }
 
 func init() {
-	all := []string{"C01", "C02", "C03", "C04", "C05", "C06", "C07", "C08", "C11", "C12", "C13", "C14", "C15", "C16", "C18", "C20"}
+	all := []string{"C01", "C02", "C03", "C04", "C05", "C06", "C07", "C08", "C11", "C12", "C13", "C14", "C15", "C16", "C17", "C18", "C20"}
 	core.Register(&core.Rule{Name: "CLONE", Props: all,
-		Doc: "consecutive sibling statements (outside LANE groups) and then/else arms that have the same tree shape and agree on at least 60% of their leaves differ by a one-to-one renaming of identifiers and literals",
+		Doc: "consecutive sibling statements (outside LANE groups) and then/else arms that have the same tree shape and agree on at least 60% of their leaves differ by a one-to-one renaming of identifiers and literals; no two names of a block are defined as the very same slice or element of a buffer",
 		Run: func(c *core.Ctx) []ob {
 			out := scanClone(c)
 			out = append(out, scanCloneExt(c)...)
 			out = append(out, control(c, "CLONE", scanClone, "(fixEvaluator).Twice")...)
+			out = append(out, control(c, "CLONE", scanCloneExt, "dupview(lo,hi)")...)
+			out = append(out, core.Floor("CLONE", nil, "definitions of slice/element views", c.Stats["clone_viewdefs"], 40)...)
 			for _, o := range core.Floor("CLONE", nil, "sibling pairs", c.Stats["clone_pairs"], 150) {
 				out = append(out, withProps(o, all...))
 			}
